@@ -13,6 +13,7 @@ import (
 	"io"
 	"math/rand"
 	"runtime"
+	"sort"
 	"strings"
 	"time"
 
@@ -1475,6 +1476,12 @@ func init() {
 		if err := largeTokenStreams(rep); err != nil {
 			return err
 		}
+		if err := tokensBackToBack(rep); err != nil {
+			return err
+		}
+		if err := everyCutMemoryVsStream(rep); err != nil {
+			return err
+		}
 		arts := map[string]*streamArtefact{}
 		skipped := 0
 		for _, raw := range cases {
@@ -1838,6 +1845,114 @@ func interleavedReads(w *world, emit func(any)) error {
 						"panic": pn(ra.err) || pn(rb.err), "detailA": fmt.Sprint(ra.got, ra.why, ra.err), "detailB": fmt.Sprint(rb.got, rb.why, rb.err)})
 				}
 			}
+		}
+	}
+	return nil
+}
+
+// tokensBackToBack: a stream that carries several tokens one after the other, read token by token with a decoder that stops
+// at the end of the object (the documented way to read concatenated objects): each call gives the token that decoding the
+// same bytes from memory gives, however the stream is chunked - a call consumes its token and nothing else.
+func tokensBackToBack(rep *Report) error {
+	w := newWorld(envSeed(), []string{"ed25519"})
+	toks, err := makeTokens(w, 4, 1)
+	if err != nil {
+		return err
+	}
+	var all []byte
+	for _, t := range toks {
+		all = append(all, t.sealed...)
+	}
+	dec := dagcbor.DecodeOptions{AllowLinks: true, DontParseBeyondEnd: true}.Decode
+	// memory: the reference
+	off := 0
+	for i, t := range toks {
+		got, err := token.Decode(all[off:], dec)
+		if err != nil {
+			// the in-memory decoder of this version insists on the end of the input: nothing to compare streams with
+			rep.Extra["back_to_back.memory"] = (fmt.Sprintf("token.Decode with a non-greedy decoder: %v (token %d)", err, i))
+			return nil
+		}
+		if _, f, _ := fieldsOf(got); sameFields(f, t.fields) != "" {
+			return fmt.Errorf("back to back: memory decodes another token: %s", sameFields(f, t.fields))
+		}
+		off += len(t.sealed)
+	}
+	for _, src := range sourceKinds() {
+		rep.Evaluations++
+		rep.nontrivial("back-to-back/" + src.name)
+		r := src.mk(all)
+		for i, t := range toks {
+			got, err := func() (tk token.Token, err error) {
+				defer func() {
+					if x := recover(); x != nil {
+						err = fmt.Errorf("panic: %v", x)
+					}
+				}()
+				return token.DecodeReader(r, dec)
+			}()
+			cs := map[string]any{"reader": src.name, "token_on_the_stream": i + 1, "tokens": len(toks)}
+			if err != nil {
+				rep.violation(cs, "the token, as from memory", err.Error(), "token.DecodeReader on a stream of tokens back to back: a call consumed more than its token")
+				break
+			}
+			if _, f, _ := fieldsOf(got); sameFields(f, t.fields) != "" {
+				rep.violation(cs, "the token, as from memory", sameFields(f, t.fields), "token.DecodeReader on a stream of tokens back to back gives another token than memory")
+				break
+			}
+		}
+	}
+	return nil
+}
+
+// everyCutMemoryVsStream: the first k bytes of a container, for EVERY k, read from memory and read from a stream: both refuse,
+// or both give the same tokens (a CAR cut exactly between two blocks is the one cut that both accept).
+func everyCutMemoryVsStream(rep *Report) error {
+	w := newWorld(envSeed(), []string{"ed25519"})
+	toks, err := makeTokens(w, 3, 0)
+	if err != nil {
+		return err
+	}
+	idsOf := func(rd container.Reader) string {
+		var ids []string
+		for id := range rd {
+			ids = append(ids, id.String())
+		}
+		sort.Strings(ids)
+		return strings.Join(ids, ",")
+	}
+	for _, f := range []string{"car", "cbor"} {
+		for _, b64 := range []bool{false, true} {
+			data, err := writeContainer(toks, []int{1, 2, 3}, f, b64, "bytes")
+			if err != nil {
+				return err
+			}
+			accepted := 0
+			for k := 0; k <= len(data); k++ {
+				rep.Evaluations++
+				cut := data[:k]
+				m, merr := readContainer(cut, f, b64, "bytes", nil)
+				st, serr := readContainer(cut, f, b64, "stream", nil)
+				cs := map[string]any{"fmt": f, "b64": b64, "cut_at": k, "of": len(data)}
+				if (merr == nil) != (serr == nil) {
+					rep.violation(cs, fmt.Sprint("stream: ", serr), fmt.Sprint("memory: ", merr), "the first k bytes of a container: memory and stream disagree on whether they can be read")
+					break
+				}
+				if merr == nil {
+					accepted++
+					if idsOf(m) != idsOf(st) {
+						rep.violation(cs, idsOf(st), idsOf(m), "the first k bytes of a container: memory and stream return different tokens")
+						break
+					}
+					if k < len(data) && (f != "car" || b64) && len(m) != 0 {
+						// (only a plain CAR has cuts that cannot be noticed; what base64 does with a cut at a group boundary is
+						// compared above, not prescribed here)
+						_ = k
+					}
+				}
+			}
+			rep.nontrivial(fmt.Sprintf("cuts/%s/%v", f, b64))
+			rep.Extra[fmt.Sprintf("cuts.%s.b64=%v", f, b64)] = fmt.Sprintf("%d cuts, %d accepted by both", len(data)+1, accepted)
 		}
 	}
 	return nil
